@@ -44,7 +44,7 @@ pub struct Call {
     pub d: i32,
 }
 
-pub const CALLS: [Call; 6] = [
+pub const CALLS: [Call; 7] = [
     Call { partial: false, inputs: &["x0"], outputs: &["v4"], d: 1 },
     Call { partial: false, inputs: &["x0", "x1"], outputs: &["v5"], d: 2 },
     Call { partial: false, inputs: &["x1"], outputs: &["v6"], d: 3 },
@@ -52,11 +52,18 @@ pub const CALLS: [Call; 6] = [
     Call { partial: true, inputs: &["x0"], outputs: &["v5"], d: 5 },
     // same key as CALLS[1], different data
     Call { partial: false, inputs: &["x0", "x1"], outputs: &["v5"], d: 6 },
+    // a superset of the inputs of CALLS[1] with the same outputs: the intermediate v3 is
+    // supplied by the caller, so Add must not run and v5 must be computed from the supplied v3
+    Call { partial: false, inputs: &["x0", "x1", "v3"], outputs: &["v5"], d: 7 },
 ];
 
 fn input_data(name: &str, d: i32) -> Vec<f32> {
     let d = d as f32;
-    if name == "x0" { vec![d, 2.0 * d] } else { vec![3.0, -d] }
+    match name {
+        "x0" => vec![d, 2.0 * d],
+        "v3" => vec![10.0 * d, -d],
+        _ => vec![3.0, -d],
+    }
 }
 
 /// What the call returns when made alone (plain arithmetic; values are small integers).
@@ -64,7 +71,7 @@ fn expected(c: &Call) -> Vec<(String, Vec<f32>)> {
     let x0 = input_data("x0", c.d);
     let x1 = input_data("x1", c.d);
     let c0 = [1.0f32, -4.0];
-    let v3: Vec<f32> = (0..2).map(|i| x0[i] + c0[i]).collect();
+    let v3: Vec<f32> = if c.inputs.contains(&"v3") { input_data("v3", c.d) } else { (0..2).map(|i| x0[i] + c0[i]).collect() };
     let v4: Vec<f32> = v3.iter().map(|v| v.max(0.0)).collect();
     let v5: Vec<f32> = (0..2).map(|i| v4[i] * x1[i]).collect();
     let v6: Vec<f32> = (0..2).map(|i| x1[i] - c0[i]).collect();
